@@ -479,9 +479,10 @@ impl Oti {
         };
 
         let max_sbn = self.max_source_blocks_number();
-        let block_size =
-            self.encoding_symbol_length as usize * self.maximum_source_block_length as usize;
-        let size = block_size * max_sbn;
+        // saturating: maximum_source_block_length is a public u32, the products exceed usize for large values
+        let block_size = (self.encoding_symbol_length as usize)
+            .saturating_mul(self.maximum_source_block_length as usize);
+        let size = block_size.saturating_mul(max_sbn);
         if size > transfer_length {
             return transfer_length;
         }
